@@ -6,6 +6,7 @@ TLC against the C13 clauses of spec/Cli.tla (no internal error, exit status 0 or
 """
 import itertools
 import json
+import re
 
 from harness.common import rng, tier
 from harness.runner import Check
@@ -30,12 +31,19 @@ def document_sets(r, n):
             if isinstance(x, list):
                 return [noneless(v) for v in x if v is not None]
             return x
-        a = noneless(docs.random_doc(r, depth=3))
-        while not isinstance(a, (dict, list)) or not a:
-            a = noneless(docs.random_doc(r, depth=3))
-        b = noneless(docs.mutate(a, r))
-        if not isinstance(b, (dict, list)):
-            b = [b]
+        # every second random set keeps its nulls (a plist FILE cannot hold one, so plist input gets the null-free copy;
+        # the other input types keep them: null has to be renderable in every output format)
+        keep_null = len(sets) % 2 == 0
+        a0 = docs.random_doc(r, depth=3)
+        while not isinstance(a0, (dict, list)) or not a0:
+            a0 = docs.random_doc(r, depth=3)
+        b0 = docs.mutate(a0, r)
+        if not isinstance(b0, (dict, list)):
+            b0 = [b0]
+        if keep_null:
+            a0 = [a0, None, {"nul": None}]
+            b0 = [b0, None, {"nul": None, "k": 1}]
+        a, b = noneless(a0), noneless(b0)
         ea = docs.random_xml_element(r, 2)
         eb = docs.mutate_xml(ea, r)
         s = {}
@@ -56,8 +64,10 @@ def document_sets(r, n):
                     csv.writer(o).writerows(rows)
                     return o.getvalue().encode()
                 s[t] = (dump(rows_a), dump(rows_b))
-            else:
+            elif t == "plist" or not keep_null:
                 s[t] = (_cli.serialise(t, a, "A"), _cli.serialise(t, b, "B"))
+            else:
+                s[t] = (_cli.serialise(t, a0, "A"), _cli.serialise(t, b0, "B"))
         sets.append(s)
     return sets
 
@@ -94,7 +104,8 @@ def run():
         v = e["C13"]
         if v["step"]:
             sig = {"clause": v["clause"], "input": m["input"], "format": m["format"],
-                   "exc": rec["exc"].split(":")[0] if rec["exc"] else "", "where": rec.get("where", "")}
+                   "exc": rec["exc"].split(":")[0] if rec["exc"] else "", "where": rec.get("where", ""),
+                   "detail": (re.findall(r"unsupported type: <class '([A-Za-z_.]+)'>", rec["exc"]) or [""])[0]}
             chk.violation(sig, {"meta": m, "argv_tail": job["argv"][2:], "first": job["contents"][0], "second": job["contents"][1]},
                           "input %s rendered as %s (%s, %s%s, %s documents): %s; rc=%s exc=%s" % (
                               m["input"], m["format"], m["mode"], m["look"], ", condensed" if m["condensed"] else "",
